@@ -48,7 +48,7 @@ def _cli_check(case, scratch, k):
     if not src:
         return None
     extra = ["--world", "%" + case["world"]] if case.get("world") else []
-    rc, so, se = cli.run_cli([case["backend"], src, "--out-dir", out] + extra + case["flags"], timeout=180)
+    rc, so, se = cli.run_cli([case["backend"], src, "--out-dir", out] + extra + case["flags"], timeout=180, env_extra={"RUST_BACKTRACE": "0"})
     vcommon.rm_scratch(out)
     if rc is None:
         kind = "timeout"
